@@ -182,9 +182,43 @@ def rand_point(rng, variables, lo=-2.0, hi=2.0):
 
 
 def expr_vars(e):
+    """variables of an expression (optyx objects), sorted by name.  Uses the library's own
+    traversal; on a RecursionError (deep right-leaning chains, which the left-spine heuristic
+    of get_all_variables does not cover) falls back to the harness's own explicit-stack walk."""
     from optyx.core.expressions import get_all_variables
 
-    return sorted(get_all_variables(e), key=lambda v: v.name)
+    try:
+        return sorted(get_all_variables(e), key=lambda v: v.name)
+    except RecursionError:
+        return sorted(iter_vars(e).values(), key=lambda v: v.name)
+
+
+def iter_vars(e):
+    """name -> Variable object, by an explicit-stack traversal independent of optyx"""
+    from optyx.core.expressions import BinaryOp, UnaryOp, Variable
+
+    out = {}
+    stack = [e]
+    while stack:
+        n = stack.pop()
+        if isinstance(n, Variable):
+            out.setdefault(n.name, n)
+        elif isinstance(n, BinaryOp):
+            stack += [n.left, n.right]
+        elif isinstance(n, UnaryOp):
+            stack.append(n.operand)
+        else:
+            for attr in ("vector", "left", "right", "expression", "matrix"):
+                sub = getattr(n, attr, None)
+                if sub is None:
+                    continue
+                if hasattr(sub, "_expressions"):
+                    ex = sub._expressions
+                    stack += [y for row in ex for y in (row if isinstance(row, list) else [row])]
+                elif hasattr(sub, "_variables"):
+                    vs = sub._variables
+                    stack += [y for row in vs for y in (row if isinstance(row, list) else [row])]
+    return out
 
 
 def node_kinds(e, acc=None):
